@@ -109,7 +109,9 @@ def judge(ctx, rows, what='case'):
     if left and KFS and not os.environ.get('C12_NO_KF'):
         # re-judge the rejected cases with each single deviation (and, last resort, all of them) enabled
         sub = [rows[i] for i in left]
-        names = [k[0] for k in KFS] + ['all']
+        # 'all' = every OPEN deviation at once (Trace_RpcSerialize_KF_all.cfg must enable only switches of findings that
+        # are still open: a repaired finding suppresses nothing); it adds nothing while fewer than two are open
+        names = [k[0] for k in KFS] + (['all'] if len(KFS) >= 2 else [])
         with ThreadPoolExecutor(max_workers=6) as ex:
             res = list(ex.map(lambda nm: _mismatches_of(ctx, f'Trace_RpcSerialize_KF_{nm}.cfg', sub, f'kf_{nm}', chunk=max(6000, -(-len(sub) // 2)), par=2), names))
         quiet = {nm: {left[k] for k in range(len(left)) if k not in m2} for nm, m2 in zip(names, res)}
@@ -120,7 +122,7 @@ def judge(ctx, rows, what='case'):
             if ok:
                 rp = ctx.save_replay(f'known_{fid}.ndjson', json.dumps(rows[ok[0]]) + '\n')
                 ctx.known(fid, f'{text} [{len(ok)} recorded cases, e.g. {rp}: {mm[ok[0]][:160]}]')
-        ok = sorted(i for i in quiet['all'] if i not in explained)
+        ok = sorted(i for i in quiet.get('all', ()) if i not in explained)
         for i in ok:
             explained[i] = 'combination'
         if ok:   # only the combination of the known deviations explains these (two findings meet in one case)
